@@ -41,6 +41,18 @@ CHECKS = {
         "Validity of generated streams is not assumed but checked per case by the independent decoder (disagreement = exit 2).",
         "DESIGN.md section 4 C03",
     ),
+    "C04": (
+        "proptest grammar mutants with recomputed checksums + checksum-repaired byte mutations + exhaustive flip/truncation sweep + raw bytes; "
+        "totality oracle (no unwind, bounded post-EOF polls, heap cap); libFuzzer targets in the thorough tier",
+        "exploration",
+        "38 classes of malformed-but-checksum-valid frames built from the generator's frame IR (1-3 per stream), byte-level mutants "
+        "of valid files with CRC-8/CRC-16 repaired, every single-bit flip and truncation of a corpus of small files, and raw bytes, "
+        "each through 8 file-level and 5 frame-level entry points (all readers, verify_reader, FrameIterator + Subframe::decode, "
+        "generate_seektable, read_blocks, FlacStreamReader, Frame/FrameHeader::read*), in both build profiles. Oracle: Ok/Err only, "
+        "bounded reads after end of data, peak heap <= 64 MiB + 64 x input length.",
+        "Heap accounting is per thread via the harness allocator; a pure compute loop would only trip the watchdog (exit 2).",
+        "DESIGN.md section 4 C04",
+    ),
 }
 
 NOT_YET = {}
